@@ -354,7 +354,14 @@ func matchingParen(s string, open int) int {
 // isExpressionArg reports whether an aggregate argument is an expression to
 // evaluate per row rather than a column name or field path to look up.
 func isExpressionArg(arg string) bool {
-	return arg != "*" && strings.ContainsAny(arg, " \t+-*/%()<>=!&|,")
+	if arg == "*" || arg == "" {
+		return false
+	}
+	// a constant (count(1), count('x')) is evaluated, not looked up as a column
+	if c := arg[0]; (c >= '0' && c <= '9') || c == '\'' || c == '"' {
+		return true
+	}
+	return strings.ContainsAny(arg, " \t+-*/%()<>=!&|,")
 }
 
 // compactExpr drops the white space outside quoted text, so "v*2" and the
